@@ -241,6 +241,7 @@ def strategy(tier):
         'ignore': st.sampled_from([False, False, False, True]),
         'after': st.sampled_from(['none', 'none', 'clone', 'deepclone', 'json']),
         'tidy': st.sampled_from([True, True, False]),
+        'tc_off': st.sampled_from([False, False, False, False, True]),
     })
 
   def tidy(c):
@@ -657,7 +658,16 @@ def execute(case):
         break
   if want is None:
     want = model.reference_call(fn, spec, rest)
-  gotc = _run(lambda: plain(target(*kargs, **dict(kkw), **call_extra)))
+  def do_call():
+    if case.get('tc_off'):
+      # type checking switched off for the call: binding rules stay the interpreter's
+      with pg.enable_type_check(False):
+        return plain(target(*kargs, **dict(kkw), **call_extra))
+    return plain(target(*kargs, **dict(kkw), **call_extra))
+  gotc = _run(do_call)
+  if case.get('tc_off'):
+    res.label('typecheck-off')
+    sigd = dict(sigd, tc_off='1')
   if kargs or kkw:
     stages += 1
   desc = '%s; late=%r; %s; call(*%r, **%r, %r) override=%s ignore_extra=%s' % (
